@@ -10,18 +10,22 @@
                           rationalize, eval of the transformed code (Python's operator precedence,
                           sympy's automatic evaluation of products and powers of positive symbols)
 
-  `parseUnit : String → Except PErr (UExpr Rat)`.  Everything outside the vocabulary is
-  `PErr.unitParseError` ("the code is expected to raise UnitParseError").  The way in
-  which the real code does *not* behave like that is modelled too, because it is the
-  defect the property is about:
-    * `PErr.hang`        — integer towers / float exponents that do not finish in practical time.
-  (`PErr.typeError` and `PErr.decodeError` were the escaping `TypeError` of `float()` in
-  `_get_unit_data_from_expr` and the `UnicodeDecodeError` of `bytes.decode`; since the fixes
-  C20-02 / C20-03 both are `UnitParseError` and the model no longer produces these outcomes —
-  theorem `no_other_exception`.)
+  `parseUnit : String → Except PErr (UExpr Rat)`.
+
+  **Inside the vocabulary the model is a model of the code** (compared with the library on every
+  input of the correspondence run): `ok e`, `PErr.unitParseError` (the code raises UnitParseError)
+  and `PErr.hang` (integer towers / float exponents that do not come back — the defect the
+  totality clause is about).
+  **Outside the vocabulary the model is the specification, not the code**: it answers
+  `PErr.outOfVocabulary` — "the property requires UnitParseError here" — for characters outside
+  the lexer's alphabet (`, [ ] { } ' " # = < > ! . \\ …`), for binary `+`/`-`, and for the class names
+  of `global_dict`.  The real code does NOT always behave like that (`Unit('m+m')` is accepted,
+  `Unit("Symbol('')")` raises IndexError — findings `vocab|*`, `escape|outside-vocabulary|*`);
+  those clauses of the property ("no other exception escapes", "nothing outside the vocabulary is
+  evaluated") rest on the direct oracles of the harness, not on a theorem.
   `PErr.unmodelled` marks inputs whose outcome depends on sympy internals this model does not
-  cover (irrational coefficients, `zoo`/`nan`, argument order of `Mul`, numbers beyond 8192
-  bits, nesting beyond 100); the harness counts them and applies only the direct oracles there.
+  cover (irrational coefficients, `zoo`/`nan`, numbers beyond 8192 bits, nesting beyond 100, a lone
+  CR); the harness counts them and applies only the direct oracles there.
 -/
 import UnytModel.Tables
 import UnytModel.Generated.ParseVocab
@@ -31,17 +35,18 @@ namespace Unyt
 namespace Parse
 
 inductive PErr
-  | unitParseError | typeError | decodeError | hang | unmodelled
+  | unitParseError | outOfVocabulary | hang | unmodelled
 deriving DecidableEq, Repr, Inhabited
 
 def PErr.str : PErr → String
-  | .unitParseError => "UnitParseError" | .typeError => "TypeError"
-  | .decodeError => "UnicodeDecodeError" | .hang => "hang" | .unmodelled => "unmodelled"
+  | .unitParseError => "UnitParseError" | .outOfVocabulary => "outOfVocabulary"
+  | .hang => "hang" | .unmodelled => "unmodelled"
 
-/-- the shared exception enum (UnicodeDecodeError is a ValueError; a hang is no exception) -/
+/-- the shared exception enum (what the property requires outside the vocabulary is
+    UnitParseError; a hang is no exception) -/
 def PErr.toErr : PErr → Err
-  | .unitParseError => .UnitParseError | .typeError => .TypeError
-  | .decodeError => .ValueError | .hang => .RuntimeError | .unmodelled => .Other
+  | .unitParseError => .UnitParseError | .outOfVocabulary => .UnitParseError
+  | .hang => .RuntimeError | .unmodelled => .Other
 
 /-! ### characters -/
 
@@ -263,13 +268,22 @@ def lex : Nat → Nat → List Char → Except PErr (List Tok)
       match lexNumber (c :: cs) with
       | none => .error .unitParseError
       | some ((m, e), rest) =>
-        -- `2m`, `1j`, `1_`: a NAME character directly after a number is never accepted
-        if (match rest with | d :: _ => isIdCont d | [] => false) then .error .unitParseError
+        -- `2m`, `1_`: a NAME character directly after a number is never accepted — except the
+        -- imaginary suffix: `1j` is a NUMBER token, `auto_number` writes it as `<number>*I`, the number
+        -- is evaluated (`1e999999999j` does not come back) and then `I`, no name of `global_dict`,
+        -- raises NameError.  The pseudo-name `[NUL]` evaluates to such an immediately failing value.
+        if (match rest with | d :: _ => isIdCont d | [] => false) then
+          match rest with
+          | j :: rest' =>
+            if (j = 'j' || j = 'J') && !(match rest' with | d :: _ => isIdCont d | [] => false) then
+              (lex fuel depth rest').map (fun ts => Tok.num m e :: Tok.star :: Tok.name [Char.ofNat 0] :: ts)
+            else .error .unitParseError
+          | [] => .error .unitParseError
         else (lex fuel depth rest).map (Tok.num m e :: ·)
     else if isIdStart c then
       let (nm, rest) := takeName cs [c]
       (lex fuel depth rest).map (Tok.name nm :: ·)
-    else .error .unitParseError
+    else .error .outOfVocabulary        -- a character outside the alphabet of unit strings
 
 def maxDepth : List Tok → Nat → Nat → Nat
   | [], _, m => m
@@ -541,13 +555,17 @@ def canonTree (cs : List Char) : String :=
     else becomes `Symbol(inv_name_alternatives.get(name, name), positive=True)` -/
 def vName (cs : List Char) : Val :=
   let codes := cs.map Char.toNat
-  if globalFns.contains codes then .fn
+  if codes == [0] then .ty                      -- the `I` of an imaginary literal (see `lex`): NameError
+  else if globalFns.contains codes then .fn
   else if globalTypes.contains codes then .ty
   else .mono ⟨1, [(canonTree cs, 1)]⟩
 
 def evalP : PExpr → Except PErr Val
   | .num m e => do let q ← numValue m e; .ok (.mono ⟨q, []⟩)
-  | .name s => .ok (vName s)
+  | .name s =>
+    if s.map Char.toNat == [0] then upe                 -- `[NUL]`: the `I` of `1j`, NameError on evaluation
+    else if globalTypes.contains (s.map Char.toNat) then .error .outOfVocabulary   -- `Integer`, `Symbol`, …
+    else .ok (vName s)
   | .neg e => do let v ← evalP e; vNeg v
   | .pos e => do let v ← evalP e; vPos v
   | .mul a b => do let x ← evalP a; let y ← evalP b; vMul x y
@@ -593,12 +611,21 @@ def finish : Val → Except PErr (UExpr Rat)
   | .mono e => unitData e
   | .bad _ _ _ => upe                                -- every such factor ends in `UnitParseError`
 
+/-- a `+` or `-` directly after an operand: binary addition / subtraction, outside the vocabulary -/
+def hasBinarySign : List Tok → Bool
+  | .num _ _ :: .plus :: _ | .num _ _ :: .minus :: _ => true
+  | .name _ :: .plus :: _ | .name _ :: .minus :: _ => true
+  | .rpar :: .plus :: _ | .rpar :: .minus :: _ => true
+  | _ :: r => hasBinarySign r
+  | [] => false
+
 /-- `Unit(s)` for a `str` -/
 def parseChars (cs : List Char) : Except PErr (UExpr Rat) :=
   let cs := if cs.isEmpty then Generated.parseEmptyCodes.map Char.ofNat else cs   -- `if not unit_expr: unit_expr = "1"`
   match tokenize (rewrite cs) with
   | .error e => .error e
   | .ok ts =>
+    if hasBinarySign ts then .error .outOfVocabulary else
     match parseTokens ts with
     | none => upe
     | some p =>
@@ -613,7 +640,7 @@ def syntaxOf (s : String) : Option PExpr :=
   let cs := if s.toList.isEmpty then Generated.parseEmptyCodes.map Char.ofNat else s.toList
   match tokenize (rewrite cs) with
   | .error _ => none
-  | .ok ts => parseTokens ts
+  | .ok ts => if hasBinarySign ts then none else parseTokens ts
 
 end Parse
 end Unyt
